@@ -63,7 +63,7 @@ class Signal(object):
         return ValueError('Cannot directly modify values, use self.reset_values()')
 
     def reset_values(self, new_values):
-        self._values = new_values
+        self._values = np.array(new_values)  # own copy, always an array (callers pass lists and their own arrays)
         self._npts = len(new_values)
         self.clear_cache()
 
